@@ -142,6 +142,13 @@ CHECKS = {
         "text": "(a) Generated sequences of schedule (existing tree / missing path / equal watch) / unschedule / start / stop+join / new observer / deletion of a watched root run against the real kernel; after every step the descriptor and library-thread counts must equal the model (3 descriptors + 2 threads per started watch, 1 thread per running observer). (b) Inotify + InotifyBuffer with reader, consumer, event source and a closer run under every schedule with <= 1/2 preemptions at line granularity of inotify_c.py/inotify_buffer.py (plus random programs and schedules): all three descriptors closed exactly once, no read/poll/write/close on a closed number. (c) For trees of 1-6 directories inotify_init and every inotify_add_watch fail in turn with ENOENT/ENOSPC/EMFILE/EACCES: the call raises or succeeds and no descriptor stays open without owner; after stop()+join() none is open.",
         "note": "Trusted: /proc/self/fd as descriptor count, vlib/simkernel.py (validated against the real kernel in setup), vlib/dsched. inotify_add_watch/rm_watch on a closed descriptor is logged, not judged.",
     },
+    "C18": {
+        "engine": "dsched",
+        "design_ref": "DESIGN.md §3.2, §4 C18",
+        "technique": "property-based testing over programs and schedules: the real EventDebouncer / ProcessWatcher / AutoRestartTrick / ShellCommandTrick on substitute threading/time with a simulated process table under a deterministic scheduler (bounded DFS + random), history oracle on the virtual clock",
+        "text": "Debouncer: event/stop sequences with gaps of I/2, I-eps, I, I+eps, 2I: every event exactly once, in order, batches never earlier than I after their last event, nothing after stop(), everything delivered at quiescence, thread exits. AutoRestartTrick over a process table whose children exit by themselves at generated times, die some time after SIGINT or need SIGKILL: never two children alive, no child alive or started after stop() returned, helper threads gone, exact restart counts for stimuli >= 2 s apart. ShellCommandTrick: no overlapping commands under wait_for_process/drop_during_process. Eight fixed programs get all schedules with <= 1/2 preemptions at line granularity; random programs get random schedules.",
+        "note": "Trusted: vlib/dsched, vlib/simproc.py (process exits are points on the virtual clock; SIGKILL is immediate). Events are fed serially through dispatch().",
+    },
 }
 
 ALL = [f"C{i:02d}" for i in range(1, 21)]
